@@ -34,17 +34,17 @@ type V struct {
 	items []V
 }
 
-func vInt(n int64) V      { return V{k: kInt, i: big.NewInt(n)} }
-func vBig(x *big.Int) V   { return V{k: kInt, i: x} }
+func vInt(n int64) V    { return V{k: kInt, i: big.NewInt(n)} }
+func vBig(x *big.Int) V { return V{k: kInt, i: x} }
 func vBool(b bool) V {
 	if b {
 		return V{k: kBool, i: big.NewInt(1)}
 	}
 	return V{k: kBool, i: big.NewInt(0)}
 }
-func vStr(s string) V     { return V{k: kStr, s: s} }
-func vTuple(xs ...V) V    { return V{k: kTuple, items: xs} }
-func vList(xs ...V) V     { return V{k: kList, items: xs} }
+func vStr(s string) V  { return V{k: kStr, s: s} }
+func vTuple(xs ...V) V { return V{k: kTuple, items: xs} }
+func vList(xs ...V) V  { return V{k: kList, items: xs} }
 
 var vNone = V{k: kNone}
 var vF = V{k: kFunc}
